@@ -835,12 +835,16 @@ fn upper_names(slots: &mut [Slot]) {
     }
 }
 
-pub fn mkfs(spec: &DiskSpec) -> (Image, Vec<PVol>) {
+/// The spec with every short name upper-cased (see `upper_names`).
+pub fn with_upper_names(spec: &DiskSpec) -> DiskSpec {
     let mut spec = spec.clone();
     for v in spec.vols.iter_mut().flatten() {
         upper_names(&mut v.root);
     }
-    let spec = &spec;
+    spec
+}
+
+pub fn mkfs(spec: &DiskSpec) -> (Image, Vec<PVol>) {
     // first pass: layouts
     let mut cur: u32 = 1;
     let mut lays: Vec<Option<(Layout, VolSpec)>> = Vec::new();
